@@ -31,7 +31,7 @@ TAB_CFG = 'SPECIFICATION Spec\n' + ''.join('INVARIANT %s\n' % i for i in INVARIA
 TBL_CFG = 'INIT TblInit\nNEXT Next\n'
 TRACE_CFG = 'SPECIFICATION Spec\n'
 EMPTY = {'Els': '{}', 'XPairs': '{}', 'Fudges': '{}', 'NameTriples': '{}', 'ResnameTriples': '{}', 'MolTriples': '{}',
-         'ResidTriples': '{}', 'OldChoices': '{}', 'Modes': '{}'}
+         'ResidTriples': '{}', 'OldChoices': '{}', 'Modes': '{}', 'SweepEls': '{}', 'SweepFudges': '{}'}
 TAB_CONSTS = {
     'quick': {
         'Els': '{"H","C","X"}',
